@@ -82,10 +82,15 @@ RTrunc(x) == IF Bad1(x) THEN x ELSE <<Quot(x[1], x[2]), 1>>
 \* floor (what sympy's floor / Mod use)
 RFloor(x) == IF Bad1(x) THEN x ELSE <<x[1] \div x[2], 1>>
 
-\* integer powers by repeated guarded multiplication; MaxExp bounds the recursion
+\* integer powers by repeated squaring of guarded products (recursion depth <= 6: TLC's evaluator is
+\* recursive and a deep TLA+ recursion can exhaust the Java stack)
 MaxExp == 40
 RECURSIVE RPowN(_, _)
-RPowN(x, k) == IF k = 0 THEN One ELSE RMul(x, RPowN(x, k - 1))
+RPowN(x, k) == IF k = 0 THEN One
+               ELSE IF k = 1 THEN x
+               ELSE LET h == RPowN(x, k \div 2)
+                        hh == RMul(h, h)
+                    IN IF k % 2 = 0 THEN hh ELSE RMul(hh, x)
 RPowInt(x, k) ==
     IF Bad1(x) THEN x
     ELSE IF AbsI(k) > MaxExp THEN OVF
